@@ -1,12 +1,61 @@
-(* C07 - DKV reads return the latest write at every moment. Statements only (work in progress). *)
-From RV Require Import Base.Bytes Model.LsmBase Model.LsmCompaction Model.Lsm.
+(* C07 - DKV reads return the latest write at every moment.  Statements only; proofs in Proofs/C07_*.v, C18_*.v.
+   Model: Model/Lsm.v (dkv/db.go as a state machine over the entry-level structures of Model/LsmBase.v and the
+   compactor of Model/LsmCompaction.v).  Specification: a sorted association list (sm_put / sm_del / sm_get / sm_scan). *)
+From Coq Require Import List NArith.
+From RV Require Import Base.Bytes Model.LsmBase Model.LsmCompaction Model.Lsm
+  Proofs.C07_Spec Proofs.C18_Layout Proofs.C18_Main Proofs.C07_Refine Proofs.C07_Corollaries.
+Import ListNotations.
 Open Scope N_scope.
 
-Theorem spec_get_after_put : forall k v m, sm_get k (sm_put k v m) = Some v.
-Proof.
-  intros k v m. induction m as [|[k' v'] m IH]; unfold sm_get in *; cbn.
-  - unfold beqb. rewrite bcmp_refl. reflexivity.
-  - destruct (bcmp k k') eqn:E; cbn; unfold beqb; rewrite ?bcmp_refl; try reflexivity.
-    rewrite bcmp_antisym, E. cbn. exact IH.
-Qed.
-Print Assumptions spec_get_after_put.
+(* For EVERY option setting with at least two levels, a table target size >= 1 and a level-0 trigger >= 1, and EVERY
+   enabled list of actions from the initial state - Put, Delete, the two halves of Get and of ScanPrefix, and the
+   half-steps F1 F2 C1 C2 of the background flush and compaction tasks interleaved anywhere, also between the two
+   halves of a read - every Get answers the value of the most recent Put of its key, or deleted/absent when the
+   key was never written or its last write is a Delete, and every ScanPrefix answers exactly the live keys with the
+   prefix, once each, ascending, with their latest values ([obs_ok] compares each observation with the plain map). *)
+Theorem dkv_refines_map :
+  forall cfg acts st os, cfg_ok cfg -> run cfg (init cfg) acts = Some (st, os) -> obs_ok [] None acts os.
+Proof. exact dkv_refines_map_proof. Qed.
+Print Assumptions dkv_refines_map.
+
+(* At every reachable state the layout a reader searches (level list + memtables as newest level-0 components) satisfies
+   the invariant "search order is consistent with sequence numbers", its live content IS the specification map, and the
+   level list alone is a valid layout in the sense of C18. *)
+Theorem dkv_reachable_invariant :
+  forall cfg acts st os, cfg_ok cfg -> run cfg (init cfg) acts = Some (st, os) ->
+  LLInv (vll st) /\ absm st = fold_left spec_step acts [] /\ valid (lv st).
+Proof. exact reachable_proof. Qed.
+Print Assumptions dkv_reachable_invariant.
+
+(* Reads of a valid layout: LevelList.Get is the entry with the greatest sequence number of the key in the whole
+   layout, ScanPrefix the live ones of those with the prefix (used by C08 / C03 / C10 as the read specification). *)
+Theorem levellist_get_is_newest :
+  forall ll k, valid ll ->
+  match ll_get k ll with
+  | Some m => ents ll m /\ ekey m = k /\ forall e, ents ll e -> ekey e = k -> eseq e <= eseq m
+  | None => forall e, ents ll e -> ekey e <> k
+  end.
+Proof. exact ll_get_newest. Qed.
+Print Assumptions levellist_get_is_newest.
+
+(* ---------- non-vacuity: the hypotheses are satisfiable by a history that exercises every kind of action ---------- *)
+
+Definition ex_cfg : dbcfg := mkDbCfg 19 1000000 6 (mkCfg 1 200 1 30).
+Definition k1 : bytes := [97]. Definition k2 : bytes := [97; 98]. Definition k3 : bytes := [98].
+Definition ex_acts : list act :=
+  [ APut k1 [49; 49]; APut k2 [50; 50]; AF1; APut k1 [51; 51]; ADel k2; AGet1 k2; AF2; AC1; AGet2;
+    AScan1 [97]; AF1; AC2; AF2; AScan2; APut k3 [52; 52]; AF1; AF2;
+    AC1; AC2; AC1; AC2; AC1; AC2; AC1; AC2; AC1; AGet1 k1; AF1; AGet2; AScan1 []; AF2; AScan2 ].
+
+Example ex_cfg_ok : cfg_ok ex_cfg.
+Proof. unfold cfg_ok, ex_cfg. cbn. repeat split; lia. Qed.
+
+(* the history is enabled: a Get parked across a flush swap (F2) and a compaction (C1), a scan parked across F1, C2, F2,
+   a delete of a flushed key, compaction cascading through all levels *)
+Example ex_run_enabled :
+  option_map snd (run ex_cfg (init ex_cfg) ex_acts) =
+  Some [ORot true; ORot true; ONone; ORot true; ORot false; ONone; ONone; OComp true; OGet GDeleted; ONone; ONone;
+        ONone; ONone; OScan [(k1, [51; 51])]; ORot true; ONone; ONone; OComp true; ONone;
+        OComp true; ONone; OComp true; ONone; OComp true; ONone; OComp true; ONone; ONone; OGet (GFound [51; 51]); ONone; ONone;
+        OScan [(k1, [51; 51]); (k3, [52; 52])]].
+Proof. vm_compute. reflexivity. Qed.
